@@ -287,6 +287,8 @@ class ElementModel:
             insert = kw.pop("_insert", False)
             arg = args[0] if args else _NOARG
             old = None
+            if insert and index is not _NOARG and (isinstance(index, bool) or not isinstance(index, int)):
+                raise Unmodelled("insert at a non-integer index")  # (whichever of several complaints comes first)
             if index is not _NOARG and not insert:
                 if isinstance(index, bool) or not isinstance(index, int):
                     if not is_kl:
